@@ -197,6 +197,12 @@ def decl_width_problems(outcome):
         bits = int(m.group(2)) - (0 if m.group(1) else 1)
         if nstates - 1 >= 2 ** bits:
             probs.append(f"state is {m.group(0).split()[0]} but {nstates} state indices are emitted")
+        # every constant the emitted code stores into or compares with the state variable (end() stores the
+        # index past the table as its final-FAIL marker when the fail state has been removed)
+        consts = [int(x) for x in re.findall(r"state->state\s*=\s*(\d+)\s*;", outcome.source or "")]
+        consts += [int(x) for x in re.findall(r"state->state\s*==\s*(\d+)\b", outcome.source or "")]
+        if consts and max(consts) >= 2 ** bits:
+            probs.append(f"state is {m.group(0).split()[0]} but the emitted code stores / tests the value {max(consts)}")
     T = nmfu.OutputStorageType
     for o in outcome.cctx.state_object_spec.values() if hasattr(outcome.cctx.state_object_spec, "values") else outcome.cctx.state_object_spec:
         if o.type == T.STR:
